@@ -148,7 +148,7 @@ Proof.
 Qed.
 
 Definition expiry_list (w : wallet) : list trec :=
-  filter (fun t => (t_parent t =? w_active w) && outstanding t) (w_log w).
+  filter (fun t => (t_parent t =? w_active w) && expirable t) (w_log w).
 
 Lemma expire_log w tip :
   WF w -> LogSorted w ->
@@ -159,13 +159,14 @@ Proof.
   intros Hwf Hs. unfold expire. fold (expiry_list w). apply expire_fold_log; try assumption.
   - unfold expiry_list. apply nodup_map_filter. now apply sorted_nodup_keys.
   - intros t Hin. unfold expiry_list in Hin. apply filter_In in Hin as [H1 H2].
-    apply andb_true_iff in H2 as [H2 H3]. split; [exact H1|]. split; [lia|exact H3].
+    apply andb_true_iff in H2 as [H2 H3]. split; [exact H1|]. split; [lia|].
+    unfold expirable in H3. apply andb_true_iff in H3 as [H3 _]. exact H3.
 Qed.
 
 (** every outstanding entry of the active account whose cutoff has been reached is cancelled,
     however many other transactions are pending *)
 Theorem expire_cancels_every_due_entry w tip t :
-  WF w -> LogSorted w -> In t (w_log w) -> t_parent t = w_active w -> outstanding t = true ->
+  WF w -> LogSorted w -> In t (w_log w) -> t_parent t = w_active w -> expirable t = true ->
   due tip t = true ->
   get_tx (w_log (expire w tip)) (t_parent t) (t_id t) = Some (cancelled t).
 Proof.
@@ -181,7 +182,7 @@ Qed.
     outstanding, not one without a cutoff or whose cutoff lies ahead *)
 Theorem expire_touches_nothing_else w tip t :
   WF w -> LogSorted w -> In t (w_log w) ->
-  (t_parent t <> w_active w \/ outstanding t = false \/ due tip t = false) ->
+  (t_parent t <> w_active w \/ expirable t = false \/ due tip t = false) ->
   get_tx (w_log (expire w tip)) (t_parent t) (t_id t) = Some t.
 Proof.
   intros Hwf Hs Hin Hwhy. destruct (expire_log w tip Hwf Hs) as (_ & _ & _ & H).
@@ -274,7 +275,7 @@ Qed.
 
 (** no output of the account stays reserved for an entry the expiry step has cancelled *)
 Theorem expire_releases_reserved_outputs w tip t :
-  WF w -> LogSorted w -> In t (w_log w) -> t_parent t = w_active w -> outstanding t = true ->
+  WF w -> LogSorted w -> In t (w_log w) -> t_parent t = w_active w -> expirable t = true ->
   due tip t = true ->
   forall o, In o (w_outs (expire w tip)) -> r_root o = w_active w -> r_tx o = Some (t_id t) ->
             r_status o <> Locked.
@@ -283,7 +284,8 @@ Proof.
   apply (expire_fold_outs tip (w_active w) (t_id t)); try assumption; try reflexivity.
   - unfold expiry_list. apply nodup_map_filter. now apply sorted_nodup_keys.
   - intros t' Hin'. unfold expiry_list in Hin'. apply filter_In in Hin' as [H1 H2].
-    apply andb_true_iff in H2 as [H2 H3]. split; [exact H1|]. split; [lia|exact H3].
+    apply andb_true_iff in H2 as [H2 H3]. split; [exact H1|]. split; [lia|].
+    unfold expirable in H3. apply andb_true_iff in H3 as [H3 _]. exact H3.
   - right. exists t. split; [|auto]. unfold expiry_list. apply filter_In. split; [exact Hin|].
     rewrite Ho. apply andb_true_iff. split; [lia|reflexivity].
 Qed.
@@ -292,7 +294,7 @@ Qed.
 Theorem expire_complete_reachable : forall ops tip t,
   forallb std_op ops = true ->
   let w := run empty_wallet ops in
-  In t (w_log w) -> t_parent t = w_active w -> outstanding t = true -> due tip t = true ->
+  In t (w_log w) -> t_parent t = w_active w -> expirable t = true -> due tip t = true ->
   get_tx (w_log (expire w tip)) (t_parent t) (t_id t) = Some (cancelled t)
   /\ forall o, In o (w_outs (expire w tip)) -> r_root o = w_active w -> r_tx o = Some (t_id t) ->
                r_status o <> Locked.
@@ -308,10 +310,21 @@ Theorem expire_exact_reachable : forall ops tip t,
   forallb std_op ops = true ->
   let w := run empty_wallet ops in
   In t (w_log w) ->
-  (t_parent t <> w_active w \/ outstanding t = false \/ due tip t = false) ->
+  (t_parent t <> w_active w \/ expirable t = false \/ due tip t = false) ->
   get_tx (w_log (expire w tip)) (t_parent t) (t_id t) = Some t.
 Proof.
   intros ops tip t Hops w Hin Hwhy.
   destruct (inv_reachable ops Hops) as (_ & Hwf & Hc). fold w in Hwf, Hc.
   apply expire_touches_nothing_else; try assumption. apply (core_sorted _ Hc).
+Qed.
+
+(** C18: the expiry step leaves a reverted payment alone, whatever its cutoff *)
+Theorem expire_keeps_reverted : forall ops tip t,
+  forallb std_op ops = true ->
+  let w := run empty_wallet ops in
+  In t (w_log w) -> t_type t = TReverted ->
+  get_tx (w_log (expire w tip)) (t_parent t) (t_id t) = Some t.
+Proof.
+  intros ops tip t Hops w Hin Hty. apply expire_exact_reachable; [exact Hops|exact Hin|].
+  right. left. unfold expirable. rewrite Hty. cbn. now rewrite andb_false_r.
 Qed.
